@@ -566,7 +566,9 @@ Definition caller_step (cfg : config) (w : nat) (s : state) : option state :=
   | CLdm1Z | CLdm2Z | CFlushZ | CWaitZ _ | CDone => None
   | CGetBuf =>
       let k := slot cfg (next m) in let jb := getj s k in
-      let ok := (0 <? bp_nb p) || negb (err_is (job_pay cfg s jb) ErrBuf) in
+      (* ZSTDMT_getBuffer allocates when the pool is empty OR when its top buffer has another size (the job size, window or dictionary
+         changed between frames): whether the call fails is the oracle's, whatever the pool holds *)
+      let ok := negb (err_is (job_pay cfg s jb) ErrBuf) in
       let jb1 := if ok then mkJob (j_id jb) 0 0 (j_pstart jb) (j_psize jb) 0 3 false true (j_first jb) (j_last jb) (j_ckneed jb) 0 (j_done jb) (j_abs jb) (j_lap jb)
                  else j_upd_work (j_consumed jb) (j_csize jb) true jb in
       Some (set_cpc CFlush (set_mt (mt_ring (done m) (next m + 1) (ready m) (ended m) (alldone m) m)
@@ -626,10 +628,10 @@ Definition worker_step (cfg : config) (t : nat) (s : state) : option state :=
         let w1 := mkW (w_pc w) k got false 0 in
         Some (set_w t (if sp_on p then w_set_pc WGetSeq w1 else after_getseq w1) (set_pl (pl_cp (take (cp_av p)) p) s))
     | WGetSeq =>
-        let got := (0 <? sp_nb p) || negb (err_is py ErrSeq) in
+        let got := negb (err_is py ErrSeq) in
         Some (set_w t (after_getseq (mkW (w_pc w) k (w_cctx w) got 0)) (set_pl (pl_sp (take (sp_nb p)) (sp_on p) p) s))
     | WGetBuf =>
-        let got := (0 <? bp_nb p) || negb (err_is py ErrBuf) in
+        let got := negb (err_is py ErrBuf) in
         let s1 := set_pl (pl_bp (take (bp_nb p)) p) s in
         if negb got then Some (set_w t (w_set_pc WJobErr w) s1) else Some (set_w t (w_set_pc WSetDst w) s1)
     | WSetDst =>
